@@ -139,14 +139,494 @@ pub fn printed_times(stdout: &str) -> Vec<(u64, u32)> {
     out
 }
 
-pub fn cfgprobe_main(_arg: &str) -> ! {
-    std::process::exit(2)
+
+// ---------------------------------------------------------------------------------------------
+// cfgprobe: real make_config + is_valid_config in a throw-away process
+
+pub fn cfgprobe_main(arg: &str) -> ! {
+    use roughenough::config;
+    // panics (unwrap/expect/as-casts with overflow checks) mean "start refused"; keep them quiet
+    std::panic::set_hook(Box::new(|_| {}));
+    let r = std::panic::catch_unwind(|| match config::make_config(arg) {
+        Err(e) => Err(format!("make_config: {:?}", e)),
+        Ok(cfg) => {
+            if !config::is_valid_config(cfg.as_ref()) {
+                return Err("is_valid_config: false".to_string());
+            }
+            Ok(serde_json::json!({
+                "interface": cfg.interface(),
+                "port": cfg.port(),
+                "seed": rtref::crypto::hex(&cfg.seed()),
+                "batch_size": cfg.batch_size(),
+                "status_interval": cfg.status_interval().as_secs(),
+                "kms_protection": format!("{}", cfg.kms_protection()),
+                "health_check_port": cfg.health_check_port(),
+                "client_stats": cfg.client_stats_enabled(),
+                "persistence_directory": cfg.persistence_directory().map(|p| p.display().to_string()),
+                "fault_percentage": cfg.fault_percentage(),
+                "num_workers": cfg.num_workers(),
+            }))
+        }
+    });
+    match r {
+        Ok(Ok(v)) => println!("{}", serde_json::json!({"accepted": true, "effective": v})),
+        Ok(Err(e)) => println!("{}", serde_json::json!({"accepted": false, "why": e})),
+        Err(p) => println!("{}", serde_json::json!({"accepted": false, "why": format!("panic: {}", crate::util::panic_msg(&p))})),
+    }
+    std::process::exit(0)
 }
 
-pub fn c20_process_part(_ctx: &Ctx, _scanned: &AtomicU64) -> Result<u64, String> {
-    Ok(0)
+#[derive(Clone, Copy, Debug, PartialEq, Eq)]
+pub enum Source {
+    File,
+    Env,
 }
 
-pub fn c03_real_server_part(_ctx: &Ctx, _classes: &std::sync::Mutex<std::collections::BTreeMap<String, u64>>) -> Result<u64, String> {
-    Ok(0)
+/// A written configuration: ordered (yaml key, literal text) pairs.
+#[derive(Clone, Debug)]
+pub struct Written {
+    pub pairs: Vec<(String, String)>,
+}
+
+pub const BASE_SEED_HEX: &str = "a32049da0ffde0ded92ce10a0230d35fe615ec8461c14986baa63fe3b3bac3db";
+
+impl Written {
+    pub fn base(port: u16) -> Written {
+        Written { pairs: vec![("interface".into(), "127.0.0.1".into()), ("port".into(), port.to_string()), ("seed".into(), BASE_SEED_HEX.into())] }
+    }
+    pub fn set(&mut self, k: &str, v: &str) {
+        if let Some(e) = self.pairs.iter_mut().find(|p| p.0 == k) {
+            e.1 = v.to_string();
+        } else {
+            self.pairs.push((k.to_string(), v.to_string()));
+        }
+    }
+    pub fn remove(&mut self, k: &str) {
+        self.pairs.retain(|p| p.0 != k);
+    }
+    pub fn get(&self, k: &str) -> Option<&str> {
+        self.pairs.iter().find(|p| p.0 == k).map(|p| p.1.as_str())
+    }
+    pub fn yaml(&self) -> String {
+        let mut s = String::new();
+        for (k, v) in &self.pairs {
+            // strings that YAML would read as something else are quoted; numbers and plain words are not
+            let lit = if v.is_empty() { "\"\"".to_string() } else { v.clone() };
+            s.push_str(&format!("{}: {}\n", k, lit));
+        }
+        s
+    }
+    pub fn env(&self) -> Vec<(String, String)> {
+        self.pairs.iter().map(|(k, v)| (format!("ROUGHENOUGH_{}", k.to_uppercase()), v.clone())).collect()
+    }
+    pub fn to_json(&self) -> serde_json::Value {
+        serde_json::json!(self.pairs.iter().map(|(k, v)| format!("{}={}", k, v)).collect::<Vec<_>>())
+    }
+}
+
+static SCRATCH_N: AtomicU64 = AtomicU64::new(0);
+
+pub fn scratch_dir() -> PathBuf {
+    let n = SCRATCH_N.fetch_add(1, std::sync::atomic::Ordering::Relaxed);
+    let d = PathBuf::from(format!("{}/target/scratch/{}-{}", crate::ev::verif_dir(), std::process::id(), n));
+    let _ = std::fs::create_dir_all(&d);
+    d
+}
+
+fn clean_env(cmd: &mut Command) {
+    // the subject must see only the variables we give it
+    for (k, _) in std::env::vars() {
+        if k.starts_with("ROUGHENOUGH_") {
+            cmd.env_remove(k);
+        }
+    }
+    cmd.env("RUST_BACKTRACE", "0");
+}
+
+/// Run the probe for a written configuration from the given source.
+pub fn cfgprobe(w: &Written, src: Source) -> Result<serde_json::Value, String> {
+    let exe = std::env::current_exe().map_err(|e| e.to_string())?;
+    let dir = scratch_dir();
+    let mut cmd = Command::new(exe);
+    clean_env(&mut cmd);
+    cmd.arg("cfgprobe");
+    match src {
+        Source::File => {
+            let p = dir.join("probe.yaml");
+            std::fs::write(&p, w.yaml()).map_err(|e| e.to_string())?;
+            cmd.arg(&p);
+        }
+        Source::Env => {
+            cmd.arg("ENV");
+            for (k, v) in w.env() {
+                cmd.env(k, v);
+            }
+        }
+    }
+    cmd.stdin(Stdio::null()).stdout(Stdio::piped()).stderr(Stdio::piped());
+    let child = cmd.spawn().map_err(|e| e.to_string())?;
+    let ex = wait_child(child, Duration::from_secs(20));
+    let _ = std::fs::remove_dir_all(&dir);
+    if ex.timed_out {
+        return Err("cfgprobe timed out".into());
+    }
+    let line = ex.stdout.lines().last().unwrap_or("");
+    serde_json::from_str(line).map_err(|e| format!("cfgprobe output unparsable ({}): {:?} / {:?} code {:?}", e, ex.stdout, ex.stderr.lines().next(), ex.code))
+}
+
+// ---------------------------------------------------------------------------------------------
+// real server process
+
+static PORT_N: AtomicU64 = AtomicU64::new(0);
+
+/// A port that is currently free for UDP and TCP on loopback (from a per-process rotating range).
+pub fn free_port() -> u16 {
+    loop {
+        let n = PORT_N.fetch_add(1, std::sync::atomic::Ordering::Relaxed);
+        let p = 20000 + ((std::process::id() as u64 * 131 + n * 7) % 28000) as u16;
+        let u = UdpSocket::bind(("127.0.0.1", p));
+        let t = std::net::TcpListener::bind(("127.0.0.1", p));
+        if u.is_ok() && t.is_ok() {
+            return p;
+        }
+    }
+}
+
+pub struct ServerProc {
+    pub child: Option<Child>,
+    pub pid: u32,
+    pub dir: PathBuf,
+    pub port: u16,
+}
+
+impl ServerProc {
+    pub fn start(w: &Written, src: Source, extra_env: &[(String, String)]) -> Result<ServerProc, String> {
+        let dir = scratch_dir();
+        let mut cmd = Command::new(repo_bin("roughenough-server"));
+        clean_env(&mut cmd);
+        match src {
+            Source::File => {
+                let p = dir.join("server.yaml");
+                std::fs::write(&p, w.yaml()).map_err(|e| e.to_string())?;
+                cmd.arg(&p);
+            }
+            Source::Env => {
+                cmd.arg("ENV");
+                for (k, v) in w.env() {
+                    cmd.env(k, v);
+                }
+            }
+        }
+        for (k, v) in extra_env {
+            cmd.env(k, v);
+        }
+        let out = std::fs::File::create(dir.join("stdout")).map_err(|e| e.to_string())?;
+        let err = std::fs::File::create(dir.join("stderr")).map_err(|e| e.to_string())?;
+        cmd.stdin(Stdio::null()).stdout(out).stderr(err);
+        let child = cmd.spawn().map_err(|e| format!("spawn server: {}", e))?;
+        let pid = child.id();
+        let port = w.get("port").and_then(|p| p.parse().ok()).unwrap_or(0);
+        Ok(ServerProc { child: Some(child), pid, dir, port })
+    }
+    pub fn stdout(&self) -> String {
+        std::fs::read_to_string(self.dir.join("stdout")).unwrap_or_default()
+    }
+    pub fn stderr(&self) -> String {
+        std::fs::read_to_string(self.dir.join("stderr")).unwrap_or_default()
+    }
+    /// None while running
+    pub fn try_status(&mut self) -> Option<(Option<i32>, Option<i32>)> {
+        use std::os::unix::process::ExitStatusExt;
+        match self.child.as_mut().and_then(|c| c.try_wait().ok()).flatten() {
+            Some(s) => Some((s.code(), s.signal())),
+            None => None,
+        }
+    }
+    /// Wait until `n` workers have printed their start-up block, or the process exits, or a
+    /// worker panicked (stderr), or the deadline passes. Returns the number of blocks seen.
+    pub fn wait_started(&mut self, n: usize, timeout: Duration) -> usize {
+        let start = Instant::now();
+        let mut last_change = Instant::now();
+        let mut last = (0usize, 0usize);
+        loop {
+            let so = self.stdout();
+            let seen = so.matches("Deliberate response errors").count();
+            let errlen = self.stderr().len();
+            if (seen, errlen) != last {
+                last = (seen, errlen);
+                last_change = Instant::now();
+            }
+            if seen >= n || self.try_status().is_some() || start.elapsed() > timeout {
+                return seen;
+            }
+            // a worker panicked and nothing has moved for a while: start-up is over
+            if errlen > 0 && last_change.elapsed() > Duration::from_millis(400) {
+                return seen;
+            }
+            std::thread::sleep(Duration::from_millis(2));
+        }
+    }
+    pub fn thread_names(&self) -> Vec<String> {
+        let mut v = vec![];
+        if let Ok(rd) = std::fs::read_dir(format!("/proc/{}/task", self.pid)) {
+            for e in rd.flatten() {
+                if let Ok(s) = std::fs::read_to_string(e.path().join("comm")) {
+                    v.push(s.trim().to_string());
+                }
+            }
+        }
+        v.sort();
+        v
+    }
+    pub fn signal(&self, sig: i32) {
+        unsafe {
+            libc::kill(self.pid as i32, sig);
+        }
+    }
+    /// Wait for exit up to `timeout`; returns (code, signal, seconds) or None.
+    pub fn wait_exit(&mut self, timeout: Duration) -> Option<(Option<i32>, Option<i32>, f64)> {
+        let start = Instant::now();
+        loop {
+            if let Some((c, s)) = self.try_status() {
+                return Some((c, s, start.elapsed().as_secs_f64()));
+            }
+            if start.elapsed() > timeout {
+                return None;
+            }
+            std::thread::sleep(Duration::from_millis(1));
+        }
+    }
+    pub fn kill(&mut self) {
+        if let Some(c) = self.child.as_mut() {
+            let _ = c.kill();
+            let _ = c.wait();
+        }
+    }
+}
+
+impl Drop for ServerProc {
+    fn drop(&mut self) {
+        self.kill();
+        let _ = std::fs::remove_dir_all(&self.dir);
+    }
+}
+
+/// Send classic requests from up to `max_clients` fresh sockets and return, per distinct
+/// delegated (online) public key seen in the replies, the number of authentic replies.
+/// Stops early once `want` distinct keys have answered.
+pub fn probe_workers(port: u16, lt_pk: &[u8], want: usize, max_clients: usize, allow_invalid: bool) -> (std::collections::BTreeMap<Vec<u8>, usize>, usize, usize) {
+    use rtref::verifier::{authentic, SERVER_VIEW};
+    let addr: SocketAddr = format!("127.0.0.1:{}", port).parse().unwrap();
+    let mut keys = std::collections::BTreeMap::new();
+    let mut sent = 0;
+    let mut bad = 0;
+    let mut k = 0u64;
+    while sent < max_clients && keys.len() < want {
+        // a small wave of sockets at a time
+        let wave: Vec<(UdpSocket, Vec<u8>)> = (0..8.min(max_clients - sent))
+            .map(|_| {
+                k += 1;
+                let s = UdpSocket::bind("127.0.0.1:0").unwrap();
+                s.set_read_timeout(Some(Duration::from_millis(1500))).unwrap();
+                let req = rtref::responder::std_request(rtref::Version::Classic, &crate::inproc::nonce(0xabc000 + k, 64));
+                let _ = s.send_to(&req, addr);
+                (s, req)
+            })
+            .collect();
+        sent += wave.len();
+        let mut buf = [0u8; 4096];
+        for (s, req) in &wave {
+            loop {
+                match s.recv_from(&mut buf) {
+                    Ok((l, _)) => {
+                        match authentic(&buf[..l], req, rtref::Version::Classic, Some(lt_pk), SERVER_VIEW) {
+                            Ok(info) => *keys.entry(info.online_pk).or_insert(0) += 1,
+                            Err(_) => {
+                                if allow_invalid {
+                                    // fault injection: identify the worker by the CERT if it still decodes
+                                    if let Some(pk) = rtref::codec::decode(&buf[..l]).ok().and_then(|m| m.get("CERT").and_then(|c| rtref::codec::decode(c).ok())).and_then(|c| c.get("DELE").and_then(|d| rtref::codec::decode(d).ok())).and_then(|d| d.get("PUBK").map(|p| p.to_vec())) {
+                                        *keys.entry(pk).or_insert(0) += 1;
+                                    }
+                                } else {
+                                    bad += 1;
+                                }
+                            }
+                        }
+                        break;
+                    }
+                    Err(e) if e.kind() == std::io::ErrorKind::Interrupted => continue,
+                    Err(_) => break,
+                }
+            }
+        }
+    }
+    (keys, sent, bad)
+}
+
+pub const HTTP_RESPONSE: &str = "HTTP/1.1 200 OK\nContent-Length: 0\nConnection: close\n\n";
+
+/// Connect to the health-check port and read the reply until EOF (or timeout).
+pub fn health_probe(port: u16, timeout: Duration) -> Result<Vec<u8>, String> {
+    use std::net::TcpStream;
+    let addr: SocketAddr = format!("127.0.0.1:{}", port).parse().unwrap();
+    let mut s = TcpStream::connect_timeout(&addr, timeout).map_err(|e| format!("connect: {}", e))?;
+    s.set_read_timeout(Some(timeout)).unwrap();
+    let mut out = vec![];
+    let mut buf = [0u8; 256];
+    loop {
+        match s.read(&mut buf) {
+            Ok(0) => break,
+            Ok(n) => out.extend_from_slice(&buf[..n]),
+            Err(e) if e.kind() == std::io::ErrorKind::Interrupted => continue,
+            Err(e) => return Err(format!("read: {} (got {} bytes)", e, out.len())),
+        }
+    }
+    Ok(out)
+}
+
+
+/// C03 part 2: the real server binary as the honest peer; `-n k` so requests really land in batches.
+pub fn c03_real_server_part(ctx: &Ctx, classes: &std::sync::Mutex<std::collections::BTreeMap<String, u64>>) -> Result<u64, String> {
+    use serde_json::json;
+    let ks: Vec<usize> = ctx.tier.pick(vec![1, 2, 3, 8, 33], vec![1, 2, 3, 5, 8, 16, 33, 64]);
+    let lt_pk = rtref::crypto::public_key(&rtref::crypto::unhex(BASE_SEED_HEX).try_into().unwrap());
+    let mut n = 0u64;
+    for batch_size in [64u8, 3] {
+        let port = free_port();
+        let mut w = Written::base(port);
+        w.set("num_workers", "1");
+        w.set("batch_size", &batch_size.to_string());
+        let mut sp = ServerProc::start(&w, Source::File, &[])?;
+        if sp.wait_started(1, Duration::from_secs(10)) < 1 {
+            return Err(format!("real server did not start: {}", sp.stderr()));
+        }
+        for proto in ["0", "13"] {
+            for &k in &ks {
+                for key in [None, Some(rtref::crypto::hex(&lt_pk)), Some(rtref::crypto::base64(&lt_pk, false, true))] {
+                    let kstr = k.to_string();
+                    let ps = port.to_string();
+                    let mut args: Vec<&str> = vec!["-z", "-v", "-f", "%s %f", "-p", proto, "-n", &kstr, "-t", "5"];
+                    if let Some(kk) = &key {
+                        args.push("-k");
+                        args.push(kk);
+                    }
+                    args.push("127.0.0.1");
+                    args.push(&ps);
+                    let t0 = std::time::SystemTime::now().duration_since(std::time::UNIX_EPOCH).unwrap().as_secs();
+                    let mut cmd = Command::new(repo_bin("roughenough-client"));
+                    cmd.args(&args).env("RUST_BACKTRACE", "0").stdin(Stdio::null()).stdout(Stdio::piped()).stderr(Stdio::piped());
+                    let child = cmd.spawn().map_err(|e| e.to_string())?;
+                    let ex = wait_child(child, Duration::from_secs(30));
+                    let t1 = std::time::SystemTime::now().duration_since(std::time::UNIX_EPOCH).unwrap().as_secs();
+                    n += 1;
+                    let times = printed_times(&ex.stdout);
+                    let max_index = ex.stderr.lines().filter_map(|l| l.split("merkle_index=").nth(1).and_then(|r| r.trim_end_matches(')').parse::<u32>().ok())).max().unwrap_or(0);
+                    let cls = format!("real:p{}:{}:maxidx{}", proto, if ex.code == Some(0) && times.len() == k { "accepted" } else { "rejected" }, if max_index > 0 { ">0" } else { "=0" });
+                    *classes.lock().unwrap().entry(cls).or_insert(0) += 1;
+                    let detail = |m: String| json!({"kind":"honest","peer":"real-server","version":if proto == "0" {"classic"} else {"ietf13"},"n":k,"batch_size":batch_size,"key":key.is_some(),"message":m,"exit":ex.code,"stdout":ex.stdout.lines().take(6).collect::<Vec<_>>(),"stderr_first":ex.stderr.lines().filter(|l| l.contains("panicked") || l.contains("Nonce")).take(3).collect::<Vec<_>>()});
+                    let vclass = format!("{}{}", if proto == "0" { "classic" } else { "ietf13" }, if k > 1 { "/n>=2" } else { "/n=1" });
+                    if ex.code != Some(0) || times.len() != k {
+                        ctx.violation("honest-reply-rejected", if ex.stderr.contains("merkle") { "merkle" } else { "other" }, &vclass, detail(format!("{} of {} times printed", times.len(), k)));
+                        continue;
+                    }
+                    // every printed time lies within the harness clock bracket (+/- 1 s for rounding)
+                    if times.iter().any(|t| t.0 + 1 < t0 || t.0 > t1 + 1) {
+                        ctx.violation("printed-time-differs", "client", &vclass, detail(format!("printed {:?} outside [{}, {}]", times, t0, t1)));
+                    }
+                    let yes = ex.stderr.matches("verified=Yes").count();
+                    if (key.is_some() && yes != k) || (key.is_none() && yes != 0) {
+                        ctx.violation("verified-flag", "client", &vclass, detail(format!("verified=Yes printed {} times for {} requests, key given: {}", yes, k, key.is_some())));
+                    }
+                }
+            }
+        }
+        sp.kill();
+    }
+    Ok(n)
+}
+
+/// C20 part 5: real server binary runs (file and ENV, accepted and refused) with stdout/stderr scanned.
+pub fn c20_process_part(ctx: &Ctx, scanned: &AtomicU64) -> Result<u64, String> {
+    use crate::checks::c20::Scanner;
+    use serde_json::json;
+    use std::sync::atomic::Ordering::Relaxed;
+    let seeds: Vec<String> = vec![
+        BASE_SEED_HEX.to_string(),
+        "00".repeat(32),
+        "ff".repeat(32),
+        "0102030405060708090a0b0c0d0e0f101112131415161718191a1b1c1d1e1f20".to_string(),
+    ];
+    let mut runs = 0u64;
+    for (si, seed_hex) in seeds.iter().enumerate() {
+        let seed: [u8; 32] = rtref::crypto::unhex(seed_hex).try_into().unwrap();
+        let sc = Scanner::for_seed(&seed);
+        // variants: (description, mutate written, expect running)
+        let variants: Vec<(&str, Box<dyn Fn(&mut Written)>)> = vec![
+            ("accepted", Box::new(|_w: &mut Written| {})),
+            ("accepted-fault-50", Box::new(|w: &mut Written| w.set("fault_percentage", "50"))),
+            ("refused-batch-size", Box::new(|w: &mut Written| w.set("batch_size", "65"))),
+            ("refused-port", Box::new(|w: &mut Written| w.set("port", "0"))),
+            ("refused-unknown-key", Box::new(|w: &mut Written| w.set("frobnicate", "1"))),
+            ("refused-fault", Box::new(|w: &mut Written| w.set("fault_percentage", "51"))),
+            ("refused-interval", Box::new(|w: &mut Written| w.set("status_interval", "abc"))),
+            ("refused-workers", Box::new(|w: &mut Written| w.set("num_workers", "0"))),
+            ("refused-kms", Box::new(|w: &mut Written| w.set("kms_protection", "arn:aws:kms:x"))),
+            ("refused-interface", Box::new(|w: &mut Written| w.set("interface", "not-an-address"))),
+        ];
+        for (vi, (what, f)) in variants.iter().enumerate() {
+            for src in [Source::File, Source::Env] {
+                if *what == "refused-unknown-key" && src == Source::Env {
+                    continue;
+                }
+                if si > 0 && vi > 3 && src == Source::Env {
+                    continue;
+                }
+                let port = free_port();
+                let mut w = Written::base(port);
+                w.set("seed", seed_hex);
+                w.set("num_workers", "2");
+                f(&mut w);
+                let mut sp = ServerProc::start(&w, src, &[])?;
+                sp.wait_started(2, Duration::from_secs(10));
+                let mut received: Vec<Vec<u8>> = vec![];
+                if sp.try_status().is_none() {
+                    // some traffic: valid classic + IETF, invalid, then SIGINT
+                    let addr: SocketAddr = format!("127.0.0.1:{}", port).parse().unwrap();
+                    let s = UdpSocket::bind("127.0.0.1:0").unwrap();
+                    s.set_read_timeout(Some(Duration::from_millis(500))).unwrap();
+                    for (k, v) in [rtref::Version::Classic, rtref::Version::Ietf13, rtref::Version::Classic].iter().enumerate() {
+                        let _ = s.send_to(&rtref::responder::std_request(*v, &crate::inproc::nonce(0xc20 + k as u64, v.nonce_len())), addr);
+                    }
+                    let _ = s.send_to(&[0u8; 1024], addr);
+                    let _ = s.send_to(&[1u8; 10], addr);
+                    let mut buf = [0u8; 4096];
+                    for _ in 0..3 {
+                        if let Ok((l, _)) = s.recv_from(&mut buf) {
+                            received.push(buf[..l].to_vec());
+                        }
+                    }
+                    sp.signal(libc::SIGINT);
+                    let _ = sp.wait_exit(Duration::from_secs(10));
+                }
+                runs += 1;
+                let so = sp.stdout();
+                let se = sp.stderr();
+                for (wh, text) in [("stdout", so.as_bytes()), ("stderr", se.as_bytes())] {
+                    scanned.fetch_add(text.len() as u64, Relaxed);
+                    if let Some(p) = sc.scan(text) {
+                        let line = String::from_utf8_lossy(text).lines().find(|l| sc.scan(l.as_bytes()).is_some()).unwrap_or("").to_string();
+                        ctx.violation("secret-in-process-output", p.split('/').next().unwrap_or("?"), what, json!({"kind":"process","variant":what,"source":format!("{:?}", src),"seed":seed_hex,"where":wh,"pattern":p,"line":line.chars().take(300).collect::<String>()}));
+                    }
+                }
+                for d in &received {
+                    scanned.fetch_add(d.len() as u64, Relaxed);
+                    if let Some(p) = sc.scan(d) {
+                        ctx.violation("secret-in-datagram", p.split('/').next().unwrap_or("?"), "datagram", json!({"kind":"process","variant":what,"pattern":p}));
+                    }
+                }
+                sp.kill();
+            }
+        }
+    }
+    Ok(runs)
 }
